@@ -90,6 +90,8 @@ fn exec(n: usize, job: &(dyn Fn(usize) + Sync)) {
             rt::note_pickup(me, i);
             rt::fault_point("par.task_start");
             if let Err(e) = catch_unwind(AssertUnwindSafe(|| job(i))) {
+                // the unwinding is over: waiters of locks released during it may now be woken
+                rt::sync::flush_wakeups();
                 let mut f = failed.lock().unwrap();
                 if f.is_none() {
                     *f = Some(e);
@@ -110,6 +112,7 @@ fn exec(n: usize, job: &(dyn Fn(usize) + Sync)) {
             s.spawn(move || {
                 // an injected fault at task start is itself caught like a job panic
                 if let Err(e) = catch_unwind(AssertUnwindSafe(|| worker(w))) {
+                    rt::sync::flush_wakeups();
                     let mut f = failed.lock().unwrap();
                     if f.is_none() {
                         *f = Some(e);
